@@ -53,14 +53,6 @@ Proof.
   rewrite mux_run_parts_cons. cbn [snd]. constructor; [apply step_part_tied|apply IH].
 Qed.
 
-Section Run.
-Variable D : list Descriptor -> list Z -> Prop.
-Hypothesis D_parse : desc_premises D.
-Hypothesis D_write : forall ds bytes, D ds bytes -> desc_bytes ds bytes.
-Hypothesis D_nil : D [] [].
-Hypothesis D_size : forall ds bytes, D ds bytes ->
-  fold_left (fun k d => k + (2 + calc_descriptor_length d)) ds 0 = Z.of_nat (length bytes).
-
 (* ---------------- what is expected ---------------- *)
 
 Definition tables_out (s : mstate) (pkts : list Packet) : list DemuxerData :=
@@ -106,6 +98,91 @@ Fixpoint expect (s : mstate) (pend : pendl) (ops : list mop) : list DemuxerData 
               let '(out, pend') := step_out s pend o p in out ++ expect s' pend' r
   end.
 
+Lemma es_pid_not_tables y : es_pid y -> y <> C_PIDPAT /\ y <> C_pmtStartPID.
+Proof. unfold es_pid, C_PIDPAT. intros [H1 H2]. split; [lia|exact H2]. Qed.
+
+Lemma es_cc_none y s : es_cc y s = None <-> es_find y (ms_es s) = None.
+Proof. unfold es_cc. destruct (es_find y (ms_es s)); cbn; split; congruence. Qed.
+
+(* the counter the next payload packet on y will follow: the stream's, or the one a removed stream carries on with *)
+Definition next_cc (y : Z) (s : mstate) : option wrappingCounter :=
+  match es_cc y s with Some c => Some c | None => rm_cc y s end.
+
+(* a call that emits no payload packet on y leaves the counter y carries on with where it was (removal and
+   re-addition included: removedCCs) *)
+Lemma next_cc_keep s o s' p y : ms_inv s -> mux_step_part s o = (s', p) -> pa_res p <> Panic -> op_entry_ok o ->
+  y <> C_PIDPAT -> y <> C_pmtStartPID -> payload_ccs y (muxer_pkts o p) = [] ->
+  next_cc y s <> None -> next_cc y s' = next_cc y s.
+Proof.
+  intros Hinv Hstep Hnp Hen H1 H2 Hcc Hnn. unfold next_cc in *.
+  destruct (es_cc y s) as [c0|] eqn:E0.
+  - destruct (step_es_effect s o s' p y c0 Hinv Hstep Hnp Hen H1 H2 E0) as [(_ & _ & Hn & Hr)|(_ & k & Hk & Hs')].
+    + rewrite Hn, Hr. reflexivity.
+    + rewrite Hcc in Hk. symmetry in Hk. apply ccs_from_nil in Hk. subst k. cbn [iter_inc] in Hs'. rewrite Hs'. reflexivity.
+  - destruct (step_es_none s o s' p y Hinv Hstep Hnp Hen H1 H2 E0) as (_ & _ & [(Hn & Hr)|Hs']).
+    + rewrite Hn, Hr. reflexivity.
+    + rewrite Hs'. destruct (rm_cc y s); [reflexivity|congruence].
+Qed.
+
+(* ---------------- small facts about what a call emits ---------------- *)
+
+Lemma unit_filter_same x unit : Forall (fun q => pkt_pid q = x) unit -> filter (unit_filter x) unit = filter pkt_has_payload unit.
+Proof.
+  induction 1 as [|q l Hq _ IH]; [reflexivity|]. cbn [filter]. unfold unit_filter at 1. rewrite Hq, Z.eqb_refl, andb_true_r, IH. reflexivity.
+Qed.
+
+Lemma unit_filter_tables x s sr tables : tables_effect s sr tables -> x <> C_PIDPAT -> x <> C_pmtStartPID ->
+  filter (unit_filter x) tables = [].
+Proof.
+  intros [(-> & _)|(ppay & mpay & -> & _)] H1 H2; [reflexivity|].
+  destruct (C_PIDPAT =? x) eqn:E1; [lia|]. destruct (C_pmtStartPID =? x) eqn:E2; [lia|].
+  cbn [filter]. unfold unit_filter, pkt_pid, pkt_has_payload.
+  cbn [table_packet Packet_Header mk_header PacketHeader_PID PacketHeader_HasPayload]. rewrite E1, E2. reflexivity.
+Qed.
+
+Lemma hdr_plain_pid x unit : Forall (hdr_plain x) unit -> Forall (fun q => pkt_pid q = x) unit.
+Proof. intros H. eapply Forall_impl; [|exact H]. intros q Hq. apply Hq. Qed.
+
+Lemma tables_out_unit s x unit : Forall (fun q => pkt_pid q = x) unit -> tables_out s unit = [].
+Proof.
+  intros H. unfold tables_out. destruct unit as [|a [|b r]]; try reflexivity. rewrite (starts_with_tables_unit x _ H). reflexivity.
+Qed.
+
+Lemma tables_out_some s pkts a b rest : pkts = a :: b :: rest -> starts_with_tables pkts = true ->
+  tables_out s pkts = [pat_datum (first_packet_of (obs_pkt a)); pmt_datum (first_packet_of (obs_pkt b)) (ms_streams s) (ms_pcr_pid s)].
+Proof. intros -> H. unfold tables_out. rewrite H. reflexivity. Qed.
+
+Lemma tables_out_len s pkts : (length (tables_out s pkts) <= 2)%nat.
+Proof. unfold tables_out. destruct pkts as [|a [|b r]]; cbn [length]; try lia. destruct (starts_with_tables _); cbn [length]; lia. Qed.
+
+Lemma data_out_nil s d : data_out s d [] = None.
+Proof.
+  unfold data_out. destruct (es_find _ _); [|reflexivity]. destruct (MuxerData_PES d) as [pes|]; [|reflexivity].
+  destruct (PESData_Header pes); reflexivity.
+Qed.
+
+(* the program map after a table pair *)
+Lemma pm_after_tables pm : (forall y, pm_mem pm y = true -> y = C_pmtStartPID) ->
+  forall y, pm_mem (pm_add pm C_pmtStartPID) y = true -> y = C_pmtStartPID.
+Proof. intros H y. rewrite pm_mem_add. intros Hy. apply orb_true_iff in Hy. destruct Hy as [Hy|Hy]; [apply H, Hy|lia]. Qed.
+
+Lemma payload_ccs_pair y cca ccb pa pb rest : y <> C_PIDPAT -> y <> C_pmtStartPID ->
+  payload_ccs y (table_packet C_PIDPAT cca pa :: table_packet C_pmtStartPID ccb pb :: rest) = payload_ccs y rest.
+Proof.
+  intros H1 H2. destruct (C_PIDPAT =? y) eqn:E1; [lia|]. destruct (C_pmtStartPID =? y) eqn:E2; [lia|].
+  unfold payload_ccs. cbn [filter].
+  change (pkt_pid (table_packet C_PIDPAT cca pa)) with C_PIDPAT. change (pkt_pid (table_packet C_pmtStartPID ccb pb)) with C_pmtStartPID.
+  rewrite E1, E2, !andb_false_r. reflexivity.
+Qed.
+
+Section Run.
+Variable D : list Descriptor -> list Z -> Prop.
+Hypothesis D_parse : desc_premises D.
+Hypothesis D_write : forall ds bytes, D ds bytes -> desc_bytes ds bytes.
+Hypothesis D_nil : D [] [].
+Hypothesis D_size : forall ds bytes, D ds bytes ->
+  fold_left (fun k d => k + (2 + calc_descriptor_length d)) ds 0 = Z.of_nat (length bytes).
+
 (* ---------------- the domain ---------------- *)
 
 Definition streams_dom (s : mstate) : Prop :=
@@ -129,10 +206,6 @@ Fixpoint history_ok (s : mstate) (ops : list mop) : Prop :=
 
 (* ---------------- the invariant ---------------- *)
 
-(* the counter the next payload packet on y will follow: the stream's, or the one a removed stream carries on with *)
-Definition next_cc (y : Z) (s : mstate) : option wrappingCounter :=
-  match es_cc y s with Some c => Some c | None => rm_cc y s end.
-
 Definition pid_ok (s : mstate) (pl : pool) (y : Z) (o : option DemuxerData) : Prop :=
   match o with
   | None => qof pl y = []
@@ -153,28 +226,6 @@ Record inv (s : mstate) (pend : pendl) (pl : pool) (pm : pmap) : Prop := {
   iv_tab : qof pl C_PIDPAT = [] /\ qof pl C_pmtStartPID = [];
   iv_pids : forall y, pid_ok s pl y (aget pend y)
 }.
-
-Lemma es_pid_not_tables y : es_pid y -> y <> C_PIDPAT /\ y <> C_pmtStartPID.
-Proof. unfold es_pid, C_PIDPAT. intros [H1 H2]. split; [lia|exact H2]. Qed.
-
-Lemma es_cc_none y s : es_cc y s = None <-> es_find y (ms_es s) = None.
-Proof. unfold es_cc. destruct (es_find y (ms_es s)); cbn; split; congruence. Qed.
-
-(* a call that emits no payload packet on y leaves the counter y carries on with where it was (removal and
-   re-addition included: removedCCs) *)
-Lemma next_cc_keep s o s' p y : ms_inv s -> mux_step_part s o = (s', p) -> pa_res p <> Panic -> op_entry_ok o ->
-  y <> C_PIDPAT -> y <> C_pmtStartPID -> payload_ccs y (muxer_pkts o p) = [] ->
-  next_cc y s <> None -> next_cc y s' = next_cc y s.
-Proof.
-  intros Hinv Hstep Hnp Hen H1 H2 Hcc Hnn. unfold next_cc in *.
-  destruct (es_cc y s) as [c0|] eqn:E0.
-  - destruct (step_es_effect s o s' p y c0 Hinv Hstep Hnp Hen H1 H2 E0) as [(_ & _ & Hn & Hr)|(_ & k & Hk & Hs')].
-    + rewrite Hn, Hr. reflexivity.
-    + rewrite Hcc in Hk. symmetry in Hk. apply ccs_from_nil in Hk. subst k. cbn [iter_inc] in Hs'. rewrite Hs'. reflexivity.
-  - destruct (step_es_none s o s' p y Hinv Hstep Hnp Hen H1 H2 E0) as (_ & _ & [(Hn & Hr)|Hs']).
-    + rewrite Hn, Hr. reflexivity.
-    + rewrite Hs'. destruct (rm_cc y s); [reflexivity|congruence].
-Qed.
 
 Lemma pid_ok_keep s pl s' pl' y o :
   pid_ok s pl y o -> qof pl' y = qof pl y -> (next_cc y s <> None -> next_cc y s' = next_cc y s) -> pid_ok s' pl' y o.
@@ -219,43 +270,6 @@ Proof using D_parse D_nil.
   intros r. rewrite Hf1, Hf2. destruct (feed full_parsers pl2 pm1 r) as [[[pl3 pm3] out]|]; reflexivity.
 Qed.
 
-
-(* ---------------- small facts about what a call emits ---------------- *)
-
-Lemma unit_filter_same x unit : Forall (fun q => pkt_pid q = x) unit -> filter (unit_filter x) unit = filter pkt_has_payload unit.
-Proof.
-  induction 1 as [|q l Hq _ IH]; [reflexivity|]. cbn [filter]. unfold unit_filter at 1. rewrite Hq, Z.eqb_refl, andb_true_r, IH. reflexivity.
-Qed.
-
-Lemma unit_filter_tables x s sr tables : tables_effect s sr tables -> x <> C_PIDPAT -> x <> C_pmtStartPID ->
-  filter (unit_filter x) tables = [].
-Proof.
-  intros [(-> & _)|(ppay & mpay & -> & _)] H1 H2; [reflexivity|].
-  destruct (C_PIDPAT =? x) eqn:E1; [lia|]. destruct (C_pmtStartPID =? x) eqn:E2; [lia|].
-  cbn [filter]. unfold unit_filter, pkt_pid, pkt_has_payload.
-  cbn [table_packet Packet_Header mk_header PacketHeader_PID PacketHeader_HasPayload]. rewrite E1, E2. reflexivity.
-Qed.
-
-Lemma hdr_plain_pid x unit : Forall (hdr_plain x) unit -> Forall (fun q => pkt_pid q = x) unit.
-Proof. intros H. eapply Forall_impl; [|exact H]. intros q Hq. apply Hq. Qed.
-
-Lemma tables_out_unit s x unit : Forall (fun q => pkt_pid q = x) unit -> tables_out s unit = [].
-Proof.
-  intros H. unfold tables_out. destruct unit as [|a [|b r]]; try reflexivity. rewrite (starts_with_tables_unit x _ H). reflexivity.
-Qed.
-
-Lemma tables_out_some s pkts a b rest : pkts = a :: b :: rest -> starts_with_tables pkts = true ->
-  tables_out s pkts = [pat_datum (first_packet_of (obs_pkt a)); pmt_datum (first_packet_of (obs_pkt b)) (ms_streams s) (ms_pcr_pid s)].
-Proof. intros -> H. unfold tables_out. rewrite H. reflexivity. Qed.
-
-Lemma tables_out_len s pkts : (length (tables_out s pkts) <= 2)%nat.
-Proof. unfold tables_out. destruct pkts as [|a [|b r]]; cbn [length]; try lia. destruct (starts_with_tables _); cbn [length]; lia. Qed.
-
-Lemma data_out_nil s d : data_out s d [] = None.
-Proof.
-  unfold data_out. destruct (es_find _ _); [|reflexivity]. destruct (MuxerData_PES d) as [pes|]; [|reflexivity].
-  destruct (PESData_Header pes); reflexivity.
-Qed.
 
 (* ---------------- calls that emit nothing ---------------- *)
 
@@ -310,20 +324,6 @@ Proof using D_parse D_write D_nil D_size.
   exists xs, cca, ccb, va, vb, rest. split; [exact Hxs|]. split; [exact Hp|]. split; [exact Wa|]. split; [exact Wb|].
   exists pl2. split; [exact Hs2|]. split; [exact Hq2|]. intros r. rewrite Hf.
   rewrite (tables_out_some s (pa_pkts p) _ _ rest Hp Hsw), Hxs. reflexivity.
-Qed.
-
-(* the program map after a table pair *)
-Lemma pm_after_tables pm : (forall y, pm_mem pm y = true -> y = C_pmtStartPID) ->
-  forall y, pm_mem (pm_add pm C_pmtStartPID) y = true -> y = C_pmtStartPID.
-Proof. intros H y. rewrite pm_mem_add. intros Hy. apply orb_true_iff in Hy. destruct Hy as [Hy|Hy]; [apply H, Hy|lia]. Qed.
-
-Lemma payload_ccs_pair y cca ccb pa pb rest : y <> C_PIDPAT -> y <> C_pmtStartPID ->
-  payload_ccs y (table_packet C_PIDPAT cca pa :: table_packet C_pmtStartPID ccb pb :: rest) = payload_ccs y rest.
-Proof.
-  intros H1 H2. destruct (C_PIDPAT =? y) eqn:E1; [lia|]. destruct (C_pmtStartPID =? y) eqn:E2; [lia|].
-  unfold payload_ccs. cbn [filter].
-  change (pkt_pid (table_packet C_PIDPAT cca pa)) with C_PIDPAT. change (pkt_pid (table_packet C_pmtStartPID ccb pb)) with C_pmtStartPID.
-  rewrite E1, E2, !andb_false_r. reflexivity.
 Qed.
 
 (* ---------------- one call ---------------- *)
@@ -708,4 +708,43 @@ Proof.
   intros P1 P2 P3 P4 period ops Hok. exists (expect (new_muxer period) [] ops).
   split; [apply (roundtrip_history D P1 P2 P3 P4 period ops Hok)|].
   intros x H1 H2. rewrite (expect_per_pid x H1 H2 ops (new_muxer period) []); [reflexivity|constructor|constructor].
+Qed.
+
+(* ---------------- what the expected PES datum is, in terms of the call's arguments ---------------- *)
+
+(* For a successful WriteData inside the domain: the datum [expect] lists for it carries the PID, exactly the payload
+   written, the header written with the stream id filled in and the derived fields a parser computes, and as
+   FirstPacket the header and adaptation field (no payload) of the unit's first payload packet p1; when the caller's
+   adaptation field leaves room for the PES header in the first packet (always when there is none), p1 is the first
+   packet of the call's unit and its adaptation field is the caller's, at most with stuffing added (first_ok). *)
+Theorem data_out_spec s d s' p ctx h0 data :
+  ms_inv s -> data_in_domain s d ctx h0 data -> write_data s d = (s', p) -> pa_res p = Ok tt ->
+  let x := MuxerData_PID d in
+  let h := filled_header h0 (ec_es ctx) in
+  exists p1 rest,
+    filter (unit_filter x) (pa_pkts p) = p1 :: rest /\
+    data_out s d (pa_pkts p) = Some (pes_datum x (obs_pkt p1) h data) /\
+    DemuxerData_PID (pes_datum x (obs_pkt p1) h data) = x /\
+    DemuxerData_PES (pes_datum x (obs_pkt p1) h data) =
+      Some {| PESData_Data := data; PESData_Header := Some (observed_header h (Z.of_nat (length data))) |} /\
+    DemuxerData_FirstPacket (pes_datum x (obs_pkt p1) h data) = Some (first_packet_of (obs_pkt p1)) /\
+    Packet_AdaptationField (first_packet_of (obs_pkt p1)) = option_map observed_af (Packet_AdaptationField p1) /\
+    ((C_MpegTsPacketSize - (1 + C_mpegTsPacketHeaderSize + af_size_opt (MuxerData_AdaptationField d)) <?
+        C_pesHeaderLength + calcPESOptionalHeaderLength (PESHeader_OptionalHeader h)) = false ->
+     first_ok (MuxerData_AdaptationField d) p1).
+Proof.
+  intros Hms Hdom Hwd Hres x h.
+  destruct (write_data_unit_ok s d s' p ctx h0 data Hms Hdom Hwd Hres)
+    as (sr & tables & unit & Hpk & Heff & Htab & Huf & (Hccs & _) & _ & Hpok).
+  pose proof Hdom as [Hxpid _ _ Hfind (pes & Hpes & Hhdr & Hdat) [Hne Hbytes] Hwh]. fold x in Hxpid, Hfind, Huf. fold h in Huf, Hwh.
+  destruct (es_pid_not_tables x Hxpid) as [Hx0 Hx1].
+  destruct (unit_is_seen x h _ data (ec_cc ctx) unit Hne Huf Hpok Hccs) as (p1 & rest & [U1 _ _ _ _ _ _ _ _]).
+  pose proof (hdr_plain_pid x unit (uf_hdr _ _ _ _ _ _ Huf)) as Hupid.
+  assert (Hfil : filter (unit_filter x) (pa_pkts p) = p1 :: rest).
+  { rewrite Hpk, filter_app, (unit_filter_tables x s sr tables Heff Hx0 Hx1). cbn [app].
+    rewrite (unit_filter_same x unit Hupid). exact U1. }
+  exists p1, rest. split; [exact Hfil|]. split.
+  { unfold data_out. fold x. rewrite Hfind, Hpes, Hhdr, Hfil, Hdat. reflexivity. }
+  split; [reflexivity|]. split; [reflexivity|]. split; [reflexivity|]. split; [reflexivity|].
+  intros Hroom. apply (first_packet_af x h _ data unit p1 rest Huf Hne U1 Hroom).
 Qed.
